@@ -233,6 +233,8 @@ func checkC19(c *Check) {
 
 	// ---------- 5: framing ----------
 	checkFraming(c)
+	// the parameters acted upon are those of this request (no field inherited from the previous message)
+	checkFreshDecode(c, "7/request-is-fresh")
 }
 
 // checkControlCloser: visits every control message, closes every SCM_RIGHTS descriptor, no early exit.
